@@ -31,6 +31,8 @@ CODES = {
     121: 'adding one server moved the key to a server that is neither its old owner nor the new server',
     131: 'removing one server changed the owner of a key that the removed server did not own',
     141: 'load-share test: a server owns no key of the sampled key set',
+    151: 'a live node computes another owner for a key after requests to absent servers failed: the owner depends on the history of the node, not only on the key and the configured server names',
+    152: 'the list a live node routes with differs from its configured server list after requests to absent servers failed',
     201: 'xxhash.Sum64String differs from the xxh64 model',
     202: 'RendezvousHash result differs from rv xxh64 (model)',
 }
